@@ -223,7 +223,7 @@ def ctl_bytes(seq):
 
 class C04(Prop):
     id = "C04"
-    modules = ["H3.Props.C04"]
+    modules = ["H3.Props.C04", "H3.Lemmas.GenAgreeCtl"]
     engines = ["ctl"]
     design_ref = "DESIGN.md section 7, C04"
     level_text = ("Lean theorems over models of AcceptRecvStream::{poll_next_varint,poll_type,into_stream}, "
@@ -250,7 +250,8 @@ class C04(Prop):
             "both roles; non-trivial = the projected implementation result differs from the idle line (something was "
             "closed, returned, listed, stopped, or the grease stream moved)")
     trusted = ["SimQuic (harness/src/sim.rs) as the transport contract: in-order delivery, sticky FIN/RESET, non-empty chunks",
-               "the scenario environment part of lean/H3/Drv/C04.lean (credits, build phase, task mailbox)"]
+               "the scenario environment part of lean/H3/Drv/C04.lean (credits, build phase, task mailbox)",
+               "translator decision tables H3.Gen.CtlArms (arms of ConnectionInner::poll_control before/after SETTINGS, process_goaway, server poll_next_control, client poll_close, per variant of enum Frame) and H3.Gen.UniArms (AcceptRecvStream::into_stream, poll_type, the two matches of poll_accept_recv), re-read from h3/src/connection.rs, h3/src/server/connection.rs, h3/src/client/connection.rs, h3/src/stream.rs on this run (any other shape is refused); tied to the models by H3.Lemmas.GenAgreeCtl (classify_frame, handle_agrees, processGoaway_agrees, intoStream_agrees, needsId_agrees, acceptKind_agrees, acceptArrival_agrees, grease_not_blocking), rebuilt on this run"]
     assumptions = ["transport chunks are non-empty (R-T)", "overlapping rules accept either code (R-04)",
                    "the application keeps accept()/wait_idle() in flight (the driver is polled when something arrives)",
                    "simultaneously available streams are judged in the order the transport hands them over, then the control stream"]
